@@ -101,26 +101,33 @@ func genBig(t *rapid.T) Case {
 	op := func(label string) string { return rapid.SampledFrom(ops).Draw(t, label) }
 	loopIdx := &mpcl.Expr{Op: mpcl.EIndex, T: T, Name: "i0", A: []*mpcl.Expr{arr}}
 	shift := func(e *mpcl.Expr, label string) *mpcl.Expr {
-		k := rapid.IntRange(0, 127).Draw(t, label)
+		// Mostly no shift: then every bit of every element reaches
+		// the returned accumulator.
+		k := rapid.SampledFrom([]int{0, 0, 0, 1, 7, 127}).Draw(t, label)
 		return &mpcl.Expr{Op: mpcl.EBin, T: T, Name: "<<", A: []*mpcl.Expr{e,
 			{Op: mpcl.ELit, T: mpcl.Uint(32), Val: fmt.Sprint(k)}}}
 	}
 	body := []*mpcl.Stmt{
 		{K: mpcl.SVar, Name: "v1", T: &arrT},
 		{K: mpcl.SVar, Name: "v2", T: &T, E: bin(op("op0"), v("a0"), v("a1"))},
-		{K: mpcl.SFor, Var: "i0", Count: n, Body: []*mpcl.Stmt{
+		// Every array update makes a new array value with n*128 fresh
+		// wire ids: a few dozen iterations already push the ids into
+		// the millions (and cost that much memory on both sides).
+		{K: mpcl.SFor, Var: "i0", Count: rapid.IntRange(8, 40).Draw(t, "iters"), Body: []*mpcl.Stmt{
 			{K: mpcl.SSetIndex, Name: "v1", LoopIdx: "i0", E: bin(op("op1"), v("v2"), v("a0"))},
-			{K: mpcl.SAssign, Name: "v2", E: bin(op("op2"), shift(v("v2"), "sh"), loopIdx)},
+			{K: mpcl.SAssign, Name: "v2", E: bin(rapid.SampledFrom([]string{"^", "+", "-"}).Draw(t, "op2"), shift(v("v2"), "sh"), loopIdx)},
 		}},
 		{K: mpcl.SSetIndex, Name: "v1", Idx: rapid.IntRange(513, n-1).Draw(t, "upd"), E: bin("+", v("a1"), v("v2"))},
 		{K: mpcl.SReturn, Es: []*mpcl.Expr{
 			bin(op("op3"), idx("r0", 513), idx("r1", 0)),
+			idx("r3", 0),
 			idx("r2", 513),
+			v("v2"),
 		}},
 	}
 	p := &mpcl.Prog{Funcs: []*mpcl.Func{{Name: "main",
 		Params:  []mpcl.Param{{Name: "a0", T: T}, {Name: "a1", T: T}},
-		Results: []mpcl.Type{T, T}, Body: body}}}
+		Results: []mpcl.Type{T, T, T, T}, Body: body}}}
 	return Case{Prog: p, Tmpl: "bigarr",
 		X:    []string{hexDigits(t, 32, "a")},
 		Y:    []string{hexDigits(t, 32, "b")},
@@ -129,4 +136,29 @@ func genBig(t *rapid.T) Case {
 
 func TestBig(t *testing.T) {
 	ev.Check(t, ev.Get(prop), "stream", genBig, run)
+}
+
+// Boundary programs: the garbler's input is an array of 2030..2050 uint32
+// (64960..65600 input wires), so the values a generated program computes get
+// wire ids on both sides of 65535/65536, where the streaming gate encoding
+// switches between 16-bit and 32-bit wire ids.
+func genBoundary(t *rapid.T) Case {
+	n := rapid.IntRange(2030, 2050).Draw(t, "n")
+	arrT := mpcl.Array(n, mpcl.Uint(32))
+	o := mpcl.Opts{NumParams: 2, MaxStmts: 6, MaxDepth: 2, Arrays: false, Loops: true,
+		ScalarParams: true, MaxWidth: 64, NoDiv: true, Param0: &arrT,
+		PoolTypes: []mpcl.Type{mpcl.Uint(32), mpcl.Uint(64)},
+		AliasHeavy: rapid.Bool().Draw(t, "alias")}
+	p := mpcl.Draw(t, o)
+	// The garbler's value: n*8 hex digits (element 0 first, as
+	// IOArg.Parse reads array literals).
+	x := hexDigits(t, 16, "xhead") + strings.Repeat("5a", n*4-8)
+	vec := mpcl.DrawInputs(t, p, 2)
+	y := vec[rapid.IntRange(0, len(vec)-1).Draw(t, "vec")][1]
+	return Case{Prog: p, Tmpl: "boundary", X: []string{x}, Y: []string{y},
+		Seed: rapid.Uint64().Draw(t, "seed")}
+}
+
+func TestBoundary(t *testing.T) {
+	ev.Check(t, ev.Get(prop), "stream", genBoundary, run)
 }
